@@ -31,3 +31,27 @@ Definition levels_are_regroupings : Prop :=
     exists r, forall compact,
       map_res (eval_named env) (tf_outputs cs_engine nm U P g opts compact false) =
       map_res (state_outputs nm compact) r.
+
+(* (c) positional successor: the state arguments and the results carry the same (element, variable)
+   labels with the same sizes in the same order - per element and per segment in the network's own
+   enumeration (links in Network.links order with rho then v, then queued origins with w) - so result
+   k is the next value of state argument k and can be fed back.  Level 0 is stated on the labelled
+   entries; levels 1 and 2 are the same stable regrouping (by variable name, then concatenated) of
+   those entries on both sides. *)
+Definition label_shape {T} (l : list (elem * string * list T)) : list (elem * string * nat) :=
+  map (fun x => (fst (fst x), snd (fst x), List.length (snd x))) l.
+Definition name_shape {T} (l : list (string * list T)) : list (string * nat) :=
+  map (fun x => (fst x, List.length (snd x))) l.
+
+Definition positional_successor : Prop :=
+  forall U (P : params expr) g opts out,
+    network_step cs_engine U P g opts (net_state U g) = Ok out ->
+    (* level 0: same labels, same sizes, same order *)
+    label_shape (group_entries U g GX) = label_shape (next_entries out) /\
+    (* level 1: per variable name; result names carry a trailing "+" *)
+    map (fun x => ((fst x ++ "+")%string, snd x))
+        (name_shape (regroup (map (fun x => (snd (fst x), snd x)) (group_entries U g GX)))) =
+    name_shape (outputs_level1 out) /\
+    (* level 2: one vector of the same total size *)
+    List.length (List.concat (map snd (regroup (map (fun x => (snd (fst x), snd x)) (group_entries U g GX))))) =
+    List.length (List.concat (map snd (outputs_level1 out))).
